@@ -13,7 +13,7 @@ res_demo_without=$( cd $wt && cp $out/demo_${L}_test.go . && go test -vet=off -c
 res_suite=$( cd $wt && go test -vet=off -count=1 ./... >/tmp/sv-$$.suite 2>&1; echo $? )
 res_demo_with=$( cd $wt && cp $out/demo_${L}_test.go . && go test -vet=off -count=1 -run "TestDemo${L}\$" . >/tmp/sv-$$.log2 2>&1; echo $? ); rm -f $wt/demo_${L}_test.go
 echo "suite_with_change_exit=$res_suite demo_without_change_exit=$res_demo_without demo_with_change_exit=$res_demo_with"
-cd /verif
+cd ${VROOT:-/verif}
 results=""
 for p in "$@"; do
   o=$(VERIF_REPO=$wt VERIF_EVIDENCE_DIR=/tmp/sv-ev-$$ ./bin/check -p $p -tier ${TIER:-quick} 2>&1); rc=$?
